@@ -168,8 +168,10 @@ def second_run_on_same_pipeline(nodes, case, detail):
 
     orch = make_recording_orchestrator()      # the Pipeline keeps ONE orchestrator across its runs
     tmp = Path(tempfile.mkdtemp(prefix="vretry-"))
+    import zlib as _z
+    single_file = _z.crc32(repr(case["prog"]).encode()) % 2 == 1      # both runs appended to ONE file by ONE driver
     try:
-        drv = make_driver(str(tmp / "d"), detail)
+        drv = make_driver(str(tmp / "d" / "all.ser.jsonl") if single_file else str(tmp / "d"), detail)
         try:
             p = Pipeline(copy.deepcopy(nodes), trace=drv)
         except Exception:
@@ -182,6 +184,9 @@ def second_run_on_same_pipeline(nodes, case, detail):
         obs = run_nodes(nodes, g_data(case["idata"]), g_ctx(case["ictx"]), pipeline=p, orchestrator=orch)
         files_b = (set((tmp / "d").rglob("*.jsonl")) if (tmp / "d").exists() else set()) - files_a
         obs["records"] = [r for f in sorted(files_b) for r in read_records(f)]
+        if single_file:
+            allrecs = [r for f in sorted(set((tmp / "d").rglob("*.jsonl"))) for r in read_records(f)]
+            obs["records"] = allrecs[len(first):]          # what the second run appended
         obs["driver_calls"] = list(drv.calls[calls_before:])
         obs["handles"] = len(drv.handles)
         obs["handles_closed"] = all(hd.closed for hd in drv.handles)
